@@ -20,6 +20,7 @@ const ottoPath = "github.com/robertkrimen/otto"
 
 // Ctx is the loaded, type-checked program and the lazily built derived forms.
 type Ctx struct {
+	eVerdicts map[string]bool
 	funcNames map[string]bool
 	RepoDir   string
 	Fset      *token.FileSet
